@@ -7,7 +7,7 @@ CONF = {
             'small scope (6-letter batch alphabet x 20 programs x LossErrors) plus seeded random cases. Real goroutines play the '
             'assembler (Reassembled/ReassemblyComplete called directly) and the consumer; every Read result (bytes, error class), '
             'every Close, and whether both sides returned (watchdog) are compared with the extracted model; the Go oracle states '
-            'the property on the implementation. A seventh of the cases is also run by the model under 4 other schedules.',
+            'the property on the implementation. A seventh of the cases is also run by the model under 4 other schedules. Every case is executed twice on the real code: free-running, and a second time on ONE P (GOMAXPROCS(1)) with the consumer held back until the assembler is parked in its first send, so that Read receives from a parked sender and the following calls (reads from the same batch, Close) run before the assembler reaches <-r.done — the interleaving (model pc ASent) in which a non-blocking acknowledgement is lost; the oracle is applied to both executions and they must agree (clause C20:schedule).',
     'shrink_keep_first': 0,
     'assumptions': [
         'Go unbuffered/nil/closed channel semantics as modelled (rendezvous; receive from a closed channel returns at once; '
@@ -26,5 +26,5 @@ CONF = {
                    'pending are exactly the delivered ones, EOF only at the end and then for ever; C20_schedule_independent: the final '
                    'state does not depend on the schedule (diamond property). PARTIAL for the deadlock part of the tie: the model proves '
                    'stuck-for-ever / always-terminates, the harness observes a 200 ms (+600 ms confirmation) no-progress watchdog; a one-off -race build of the harness over the quick cases reported no data race. C20_assembler_waits_only_for_reader: the assembler is blocked only while the consumer holds the batch. '
-                   'C20_progress_refuted / C20_loss_refuted document the two defects of the unrepaired code.',
+                   'C20_progress_refuted / C20_loss_refuted document the two defects of the unrepaired code; C20_nonblocking_ack_refuted shows (schedule witness) that the acknowledgement in Close has to be a blocking send: the model separates "send completed" (ASent) from "parked in <-r.done" (AWait).',
 }
